@@ -474,8 +474,14 @@ func (w *spWorld) apply(st *spStep, a *spArgs, rep *common.Report) error {
 		var sel []wire.OutPoint
 		what := fmt.Sprintf("%s(acct %d, %s, minconf %d)", st.Op, a.Acct, a.Scope, a.Mc)
 		if st.Op == "SendExplicit" {
-			// half of what the selection is worth: the other half (minus the fee) comes back as change
-			amount = w.sumVal(a.Sel) / 2
+			// the change must stay below the smallest base coin (1 unit), because the model ranks every
+			// change coin below every base coin for largest-first selection: pay everything but a margin,
+			// or half of it when the selection itself is worth less than two margins
+			if v := w.sumVal(a.Sel); v > 2*margin(a.N) {
+				amount = v - margin(a.N)
+			} else {
+				amount = v / 2
+			}
 			for _, c := range sorted(a.Sel) {
 				sel = append(sel, w.opOf[c])
 			}
